@@ -467,7 +467,7 @@ def leg_rich_js(res, spec):
             for t in (A, B):
                 for r in t:
                     r[1] = r[1] if isinstance(r[1], list) else [r[1]]
-            names = rng.choice([None, None, ['key', 'vals', 'other']])
+            names = rng.choice([None, ['key', 'vals', 'other'], ['key', 'vals, all', 'the "other"'], ['k;1', 'v\nw', 'o']])
             q = JS_RICH_QUERIES[(n + spec['i']) % len(JS_RICH_QUERIES)]
             use_b = ' join ' in q
             reqs.append({'query': q, 'input': A, 'join': B if use_b else None, 'input_cols': names, 'join_cols': (['bkey', 'bvals', 'bother'] if names else None) if use_b else None,
@@ -478,6 +478,10 @@ def leg_rich_js(res, spec):
             res.count('js_rich_csv_sink_runs')
             res.count('js_rich_csv_sink_runs_failing' if o['error'] else 'js_rich_csv_sink_runs_succeeding')
             res.nontrivial('js-rich', req['query'], json.dumps(req['input']), json.dumps(req['join']))
+            if not o.get('cols_unchanged', True):
+                res.violation('js:column-names-modified:csv-writer', '[js/CSVWriter on array input] %s (error %r) changed the caller\'s column-name arrays: %r -> %s' % (
+                    req['query'], o['error'] and o['error']['msg'][:80], [req['input_cols'], req['join_cols']], o['cols_after']), {'leg': 'rich-js', 'req': req})
+            res.count('js_column_name_array_checks')
             if not o['input_unchanged'] or not o['join_unchanged']:
                 res.violation('js:sources-modified:rich-cells:csv-writer', '[js/CSVWriter on array input] %s (error %r) changed its sources: input %s -> %s ; join %s -> %s' % (
                     req['query'], o['error'] and o['error']['msg'][:80], json.dumps(req['input']), o['input_after'], json.dumps(req['join']), o['join_after']), {'leg': 'rich-js', 'req': req})
@@ -586,7 +590,7 @@ def run_shard(spec, res):
 def summarize(tier, seed, m):
     return {
         'rule': 'the query generators of C01-C05 (every query shape) plus deliberately failing variants (syntax error, parsing error, runtime error, unknown join table), each executed (1) through rbql.query with probes and snapshots, (2) through the icontract-armed query_table, (3) with the CSV writer attached to list input, (4) on the JS engine with array snapshots; list tables with numbers, None and mutable list-valued cells under %d query texts (stars, UNNEST, every aggregate, list arithmetic and methods, UPDATE, joins) through query_table, the CSV writer as sink, a mutating probe sink and pandas object columns, compared with fully deep snapshots; pandas dataframes with deep copies; a file-backed sqlite database with recording connection, authorizer log, total_changes and file hash under %d hostile table identifiers (in the query text, as input table, and passed directly to SqliteRecordIterator); query_csv with file fingerprints and an audit-hook log of every open() (one run in five with the input path spelled relatively / through .., and the output path naming the directory that holds the input, in several spellings, or a path below a missing directory); the CLI under strace. distinct_nontrivial = distinct executed (query, source) cases.' % (len(RICH_QUERIES), len(HOSTILE_IDS)),
-        'required': ['list_runs_with_header_modifier', 'csv_runs_with_directory_or_odd_output_path', 'rich_cases_with_tuple_rows', 'js_rich_csv_sink_runs_succeeding', 'js_rich_table_runs', 'rich_runs_failing', 'rich_runs_succeeding', 'rich_runs:csv-writer-quoted', 'rich_runs:query+mutating-sink', 'rich_runs:pandas', 'list_runs_failing', 'list_runs_succeeding', 'contract_evaluations', 'csv_writer_on_list_runs', 'column_name_list_checks', 'pandas_runs_succeeding', 'pandas_runs_failing', 'pandas_runs_non_string_labels', 'sqlite_runs_hostile', 'sqlite_runs_with_open_transaction', 'sqlite_sql_statements_observed', 'sqlite_authorizer_events', 'sqlite_direct_constructor_runs', 'csv_runs_succeeding', 'csv_runs_failing', 'csv_open_events_observed', 'strace_cli_runs', 'strace_opens_of_sources_observed', 'js_cases'],
+        'required': ['js_column_name_array_checks', 'list_runs_with_header_modifier', 'csv_runs_with_directory_or_odd_output_path', 'rich_cases_with_tuple_rows', 'js_rich_csv_sink_runs_succeeding', 'js_rich_table_runs', 'rich_runs_failing', 'rich_runs_succeeding', 'rich_runs:csv-writer-quoted', 'rich_runs:query+mutating-sink', 'rich_runs:pandas', 'list_runs_failing', 'list_runs_succeeding', 'contract_evaluations', 'csv_writer_on_list_runs', 'column_name_list_checks', 'pandas_runs_succeeding', 'pandas_runs_failing', 'pandas_runs_non_string_labels', 'sqlite_runs_hostile', 'sqlite_runs_with_open_transaction', 'sqlite_sql_statements_observed', 'sqlite_authorizer_events', 'sqlite_direct_constructor_runs', 'csv_runs_succeeding', 'csv_runs_failing', 'csv_open_events_observed', 'strace_cli_runs', 'strace_opens_of_sources_observed', 'js_cases'],
         'assumptions': ['hostile identifiers are only required not to reach sqlite and not to change the database; the error class they produce is not demanded', 'sqlite3.connect itself opens the database file read-write; the file hash (not the open mode) decides for sqlite'],
     }
 
